@@ -2233,7 +2233,7 @@ def to_arrow(
                 recurse(x[: len(layout)], mask, is_option) for x in layout.contents
             ]
 
-            min_list_len = min(map(len, values))
+            min_list_len = len(layout)
 
             types = pyarrow.struct(
                 [
@@ -2366,7 +2366,7 @@ def to_arrow(
                         for x in layout_content.contents
                     ]
 
-                    min_list_len = min(map(len, values))
+                    min_list_len = len(index)
 
                     types = pyarrow.struct(
                         [
